@@ -110,12 +110,13 @@ type scionWorld struct {
 	r   *simcore.Run
 	net *simnet.Net
 
-	srv, cli, atk *simnet.Host
-	routers       []*simnet.UDPConn
-	routerHosts   []*simnet.Host
-	listeners     []*simnet.UDPConn
-	dc            *mockDaemon
-	useForwarder  bool // replies reach the client through the real end-host forwarder on 30041
+	srv, cli, atk  *simnet.Host
+	routers        []*simnet.UDPConn
+	routerHosts    []*simnet.Host
+	listeners      []*simnet.UDPConn
+	dc             *mockDaemon
+	useForwarder   bool // replies reach the client through the real end-host forwarder on 30041
+	realDispatcher bool // ... started by StartSCIONDispatcher itself
 	// toEndhostPort: the routers hand every packet for the server to its end-host port 30041
 	// (where the service runs listeners of its own), whatever the L4 destination port
 	toEndhostPort bool
@@ -225,6 +226,17 @@ func (w *scionWorld) startServers(n int, auth bool, dscp uint8, provider *ntske.
 
 func (w *scionWorld) startForwarder(m *server.VerifSCIONServerMetrics, forwarder bool) {
 	w.useForwarder = forwarder
+	if forwarder && w.r.Tape.Bool(1, 2, "real-dispatcher") {
+		// the client side's own start-up of the end-host forwarder (as runClient calls it: the
+		// configured local address, port 0)
+		resetProm()
+		w.net.Setup = true
+		server.StartSCIONDispatcher(context.Background(), quietLog(), &net.UDPAddr{IP: net.ParseIP(scCliIP), Port: 0})
+		w.net.Setup = false
+		w.realDispatcher = true
+		w.r.Probe("forwarder-started-by-the-service")
+		return
+	}
 	if forwarder {
 		cf, err := w.net.Listen(hp(scCliIP, scEndhost), false)
 		if err != nil {
